@@ -40,6 +40,10 @@ def gen(tier, seed, index):
             forced.append(rng.choice(G.FORCED))
     else:
         mn, me = 5, 4
+    if forced == ['plain'] and not typed:
+        # the 'plain' stratum is spent on broadcast-heavy grammars (values that are stride-0 tensors)
+        spec = G.gen_broadcast_spec(rng, allow_inf=rng.random() < 0.3)
+        return spec, dict(typed=False, dtype='float32' if f32 else 'float64', forced=['stride0-nonterminals'])
     spec = G.gen_spec(rng, 'nonrec', forced, max_nodes=mn, max_edges=me, typed=typed,
                       allow_inf=True)
     return spec, dict(typed=typed, dtype='float32' if f32 else 'float64', forced=forced)
@@ -178,7 +182,7 @@ def run_case(tier, seed, index, spec=None, meta=None):
         h.spy(SP.SumProduct, 'forward', on_call=on_call, key='SumProduct.forward', static=True)
         res = check_spec(spec, meta, h)
         hooks = dict(h.count)
-    feats = sorted(G.features_of(spec)) + [meta['dtype'], 'patterned' if meta['typed'] else 'dense']
+    feats = sorted(G.features_of(spec)) + [meta['dtype'], 'patterned' if meta['typed'] else 'dense'] + [f for f in meta['forced'] if f == 'stride0-nonterminals']
     res.update(cls='nonrec-' + ('patterned' if meta['typed'] else 'dense'), features=feats, key=G.spec_key(spec),
                hooks=hooks, sample=dict(spec=G.describe(spec), meta=meta))
     res['obs']['scc_method_one-step'] = sum(1 for m in methods_seen if m == 'one-step')
@@ -197,7 +201,7 @@ def replay(rep):
 
 REQUIRED_FEATURES = ['edgeless-internal', 'edgeless-ext', 'edge-twice', 'nullary', 'nt-without-rules',
                      'unreachable-nt', 'start-arity', 'zero-weight', 'inf-weight', 'no-edges-rule',
-                     'size1-domain', 'patterned', 'dense', 'float32', 'float64']
+                     'size1-domain', 'patterned', 'dense', 'float32', 'float64', 'stride0-nonterminals']
 
 
 def finalize(tot, tier, seed):
